@@ -4,6 +4,7 @@ import (
 	"container/list"
 	"crypto/sha256"
 	"encoding/binary"
+	"errors"
 	"maps"
 	"slices"
 	"strings"
@@ -12,6 +13,8 @@ import (
 	"github.com/relab/hotstuff"
 	"github.com/relab/hotstuff/security/crypto"
 )
+
+var errNilSignature = errors.New("signature is nil")
 
 type Cache struct {
 	impl        crypto.Base
@@ -78,6 +81,9 @@ func (cache *Cache) Sign(message []byte) (sig hotstuff.QuorumSignature, err erro
 
 // Verify verifies the given quorum signature against the message.
 func (cache *Cache) Verify(signature hotstuff.QuorumSignature, message []byte) error {
+	if signature == nil {
+		return errNilSignature
+	}
 	var key strings.Builder
 	hash := sha256.Sum256(message)
 	_, _ = key.Write(hash[:])
@@ -97,6 +103,9 @@ func (cache *Cache) Verify(signature hotstuff.QuorumSignature, message []byte) e
 
 // BatchVerify verifies the given quorum signature against the batch of messages.
 func (cache *Cache) BatchVerify(signature hotstuff.QuorumSignature, batch map[hotstuff.ID][]byte) error {
+	if signature == nil {
+		return errNilSignature
+	}
 	// sort the list of ids from the batch map
 	ids := slices.Sorted(maps.Keys(batch))
 	hasher := sha256.New()
